@@ -33,7 +33,8 @@ def cases(draw, prof):
     plain = P.get('acc') == 'plain'
     if plain:
         P['acc'] = True
-    doc = draw(D.documents(D.profile('full', kern_weight=4, **P)))
+    # a supported clef in force everywhere, so that the agnostic encodings of the result can be compared as well
+    doc = draw(D.documents(D.profile('full', kern_weight=4, force_clef=True, supported_clefs_only=True, **P)))
     if plain:
         # plain accidentals only: no natural sign, no display suffix
         for _, _, c in S.cells(doc):
@@ -130,7 +131,28 @@ def check(case):
     if after != before:
         problems.append(Problem('source-changed', f'the source document exports differently after to_transposed({name}, {direction})\n--- before\n{before}--- after\n{after}',
                                 {'after_equals_transposed': after == out_k, 'p1': name == 'P1'}))
-    if not problems:
+    from ..grammar import ACC_SUFFIX_SIGS
+    ambiguous = any(set(n['sigs']) & ACC_SUFFIX_SIGS for n in notes)  # X Z i j after a NEW accidental re-read as its display mark
+    if not ambiguous and not [p for p in problems if p.sig != 'source-changed']:
+        # the plain encodings of the result equal those of the document one gets by importing its kern export
+        rel, rerr = kp.loads(out_k)
+        if rerr:
+            problems.append(Problem('transposed-reimport', f'kern export of the transposed document re-imports with errors {[(x.line, x.encoding) for x in rerr]}', {}))
+        else:
+            for enc in ('kern', 'bkern', 'akern'):
+                try:
+                    want = kp.dumps(rel, encoding=K.ENCODINGS[enc])
+                except Exception:  # noqa  (agnostic export needs supported clefs everywhere)
+                    continue
+                try:
+                    got_ = kp.dumps(t, encoding=K.ENCODINGS[enc])
+                except Exception as e:  # noqa
+                    problems.append(Problem('transposed-export-raised', f'{enc} export of the transposed document raised {e!r}', {}))
+                    continue
+                if got_ != want:
+                    dl = [(x, y) for x, y in zip(got_.split('\n'), want.split('\n')) if x != y][:3]
+                    problems.append(Problem('transposed-encoding-differs', f'{enc} export of the transposed document differs from the same text imported: {dl}', {}))
+    if not [p for p in problems if p.sig != 'source-changed']:
         try:
             back = t.to_transposed(name, opposite)
         except Exception as e:  # noqa
